@@ -4,7 +4,7 @@ from __future__ import annotations
 import cmath
 
 from mc import dbe, isolate
-from mc.core import pmap, run_forked, short_hash
+from mc.core import pmap, run_forked, short_hash, run_tasks
 from ref import ampgen
 from ref.ampgen import leaf
 
@@ -313,17 +313,14 @@ def run(ctx):
     big = max(items, key=lambda x: x[1])
     ctx.sample({"choices": list(big[0]), "text": text_of(build(big[0])[0])})
     ctx.rng.shuffle(items)
-    for r in pmap(work, [items[i:i + 12] for i in range(0, len(items), 12)], ctx.workers):
-        ctx.absorb(r)
+    run_tasks(ctx, work, [items[i:i + 12] for i in range(0, len(items), 12)])
     shapes_ = list(expansion_shapes())
     ctx.log(f"{len(shapes_)} expansion shapes (0..3 alternatives per undecayed name, repeated names), complete")
-    for r in pmap(work_shapes, [shapes_[i:i + 6] for i in range(0, len(shapes_), 6)], ctx.workers):
-        ctx.absorb(r)
+    run_tasks(ctx, work_shapes, [shapes_[i:i + 6] for i in range(0, len(shapes_), 6)])
     ctx.count(states=len(shapes_), transitions=sum(len(x["parts"]) + len(x["tops"]) for x in shapes_))
     ctx.part("expansion-shapes", cases=len(shapes_), complete=True)
     small = [ch for ch, nd in items if nd <= 1][: (None if ctx.thorough else 24)]
-    for r in pmap(work_nomemo, [small[i:i + 2] for i in range(0, len(small), 2)], ctx.workers):
-        ctx.absorb(r)
+    run_tasks(ctx, work_nomemo, [small[i:i + 2] for i in range(0, len(small), 2)])
     ctx.count(states=stats["nodes"], transitions=stats["choices"])
     ctx.part("option-texts", scenarios=len(items), deviation_bound=bound, per_dimension_max=stats["per_dimension_max"], memo_seam_checked=len(small))
     ctx.extra["assumptions_list"] = ["name-lookup memo keyed by (name, size of the particle table) is behaviour-preserving (checked on the <=1-deviation scenarios)"]
